@@ -1025,9 +1025,13 @@ func (f *Frame) exec(ins ssa.Instruction) {
 		}
 		g.assume(f.curReach, sAnd(sApp("bvsle", lo, idx), sApp("bvslt", idx, bv64(int64(len(x.States))))))
 		// ghost: the chosen receive case counts one more value taken from its channel
+		ev := f.chanEvent()
 		for i, st := range x.States {
 			if st.Dir == types.RecvOnly {
-				f.countRecv(f.val(st.Chan), sEq(idx, bv64(int64(i))))
+				f.countRecv(f.val(st.Chan), sEq(idx, bv64(int64(i))), ev)
+				if !x.Blocking {
+					f.notePoll(f.val(st.Chan), ev)
+				}
 			}
 		}
 		f.setVal(x, sv)
@@ -1263,7 +1267,7 @@ func (f *Frame) unop(x *ssa.UnOp) *SVal {
 		return scalar(x.Type(), KInt, sApp("bvnot", v.Term))
 	case token.ARROW:
 		g.note("%s: channel receive abstracted (value unconstrained)", f.fn.String())
-		f.countRecv(v, "true")
+		f.countRecv(v, "true", f.chanEvent())
 		r := g.freshVal(x.Type(), x.Name())
 		g.assume(f.curReach, g.typeInv(r))
 		return r
@@ -1271,22 +1275,53 @@ func (f *Frame) unop(x *ssa.UnOp) *SVal {
 	panic(unsupported("unop " + x.Op.String()))
 }
 
-// recvHeap: ghost state, the number of values the executing goroutine has taken from each channel (by
-// receive statements and chosen select cases of the code under verification; code the verifier does not see
-// into forgets it like any other state).
+// Ghost state about channel operations of the executing goroutine (receive statements and select statements of
+// the code under verification; code the verifier does not see into forgets all of it like any other state):
+//   $recv[ch]      how many values were taken from ch
+//   $ev            a counter of channel operations (each receive or select is one event)
+//   $firstrecv[ch] the event at which a value was first taken from ch (0: never)
+//   $lastpoll[ch]  the event of the last non-blocking select that offered to receive from ch (0: never)
 const recvHeap = "$recv"
+const firstRecvHeap = "$firstrecv"
+const lastPollHeap = "$lastpoll"
+const evHeap = "$ev"
 
 var recvSort = arrSort(SBV64, SBV64)
 
-func (f *Frame) countRecv(ch *SVal, cond string) {
+func chanGhostNames() map[string]Sort {
+	return map[string]Sort{recvHeap: recvSort, firstRecvHeap: recvSort, lastPollHeap: recvSort, evHeap: SBV64}
+}
+
+// chanEvent starts a channel operation: the event counter advances; returns the new event number.
+func (f *Frame) chanEvent() string {
 	g := f.g
-	h := g.heapGet(f.curState, recvHeap, recvSort)
-	inc := sStore(h, ch.Term, sApp("bvadd", sSel(h, ch.Term), bv64(1)))
-	if cond == "true" {
-		g.heapSet(f.curState, recvHeap, recvSort, inc)
-		return
+	old := g.heapGet(f.curState, evHeap, SBV64)
+	ev := g.define("ev", SBV64, sApp("bvadd", old, bv64(1)))
+	// a ghost counter is a mathematical integer: it does not wrap
+	g.assume(f.curReach, sAnd(sApp("bvsle", bv64(0), old), sApp("bvslt", old, ev)))
+	g.heapSet(f.curState, evHeap, SBV64, ev)
+	return ev
+}
+
+func (f *Frame) countRecv(ch *SVal, cond string, ev string) {
+	g := f.g
+	upd := func(name string, newVal func(h string) string) {
+		h := g.heapGet(f.curState, name, recvSort)
+		n := sStore(h, ch.Term, newVal(h))
+		if cond == "true" {
+			g.heapSet(f.curState, name, recvSort, n)
+		} else {
+			g.heapSet(f.curState, name, recvSort, sIte(cond, n, h))
+		}
 	}
-	g.heapSet(f.curState, recvHeap, recvSort, sIte(cond, inc, h))
+	upd(recvHeap, func(h string) string { return sApp("bvadd", sSel(h, ch.Term), bv64(1)) })
+	upd(firstRecvHeap, func(h string) string { return sIte(sEq(sSel(h, ch.Term), bv64(0)), ev, sSel(h, ch.Term)) })
+}
+
+func (f *Frame) notePoll(ch *SVal, ev string) {
+	g := f.g
+	h := g.heapGet(f.curState, lastPollHeap, recvSort)
+	g.heapSet(f.curState, lastPollHeap, recvSort, sStore(h, ch.Term, ev))
 }
 
 func hasRefs(t types.Type) bool {
